@@ -72,8 +72,7 @@ def run(ctx):
                  "integer/float/word/signed values; all global queries compared; non-trivial = distinct text with a name declared twice")
     batch = Batch(ctx["driver_ok"])
     n_docs = 300 if tier == "quick" else 3000
-    for i in range(n_docs):
-        doc = gen_globals(rng)
+    def one(doc):
         text = render_doc(doc)
         case = {"kind": "globals", "text": text}
         try:
@@ -83,7 +82,7 @@ def run(ctx):
         except Exception as e:
             res.violation(f"a well-formed text is rejected: {type(e).__name__}: {str(e)[:100]}", case, clause="well-formed text")
             res.case()
-            continue
+            return
         if wire != doc:
             res.violation("the parse tree does not state what was written", case, impl=wire[:3], model=doc[:3], clause="reading of the text")
         try:
@@ -91,7 +90,7 @@ def run(ctx):
         except Exception as e:
             res.violation(f"a query raised {type(e).__name__}: {e}", case, clause="queries")
             res.case()
-            continue
+            return
         # direct statement of "later wins" for the plain dictionaries
         direct = {
             "aliases": spec_last_wins([(s[1], s[2]) for s in doc if s[0] == "alias"]),
@@ -124,5 +123,15 @@ def run(ctx):
                     break
 
         batch.add(["queries", ref_widths(doc), wire], on)
+
+    for i in range(n_docs):
+        doc = gen_globals(rng)
+        one(doc)
+        if i % 3 == 0 and doc:
+            # a document sharing most of its text with the previous one, then the previous one again (every parse answers
+            # from its own text)
+            one(gen.sibling_doc(rng, doc))
+            one(doc)
+            res.count("siblings")
     batch.run()
     return res.done()
